@@ -163,6 +163,7 @@ FnFails(e) ==
   ELSE ValueFails(e)
     \o F(e.argsame, "the function rewrote the caller's argument list")
     \o F(e.again = "same", "a second call with the same arguments returns something else after the caller changed the first result in place (results are shared)")
+    \o (IF e.hostmath # "none" THEN F(e.r.s = e.hostmath, "the function does not return what the host's math library gives for the converted argument") ELSE "")
     \o (IF e.canon = "date" /\ e.hostsec # "none" THEN F(e.r.t = "DateTime" /\ e.r.u = e.hostsec, "Date is not the host calendar's date-time for these components in the host's zone") ELSE "")
     \o (IF e.canon \in {"ticks", "now", "rnd", "random", "null"} THEN ""      \* clock / random / NULL is a keyword of the language
         ELSE F(e.eo = "value" /\ e.er.t = e.r.t /\ e.er.s = e.r.s, "calling the function through an expression gives a different result than calling it directly"))
